@@ -322,14 +322,15 @@ pub fn rule_variant(rule: Option<Rule>, name: &str) -> String {
 
 pub fn field_name(r: &Recv, f: &Field) -> String {
     match &f.rename {
-        Some(n) => n.clone(),
+        // (a rename spelled as a raw identifier names the identifier: `r#` is spelling)
+        Some(n) => n.strip_prefix("r#").unwrap_or(n).to_string(),
         None => rule_field(r.rename_all, &f.rust),
     }
 }
 
 pub fn variant_name(r: &Recv, v: &Variant) -> String {
     match &v.rename {
-        Some(n) => n.clone(),
+        Some(n) => n.strip_prefix("r#").unwrap_or(n).to_string(),
         None => rule_variant(r.rename_all, &v.rust),
     }
 }
@@ -448,7 +449,7 @@ impl<'a> Gen<'a> {
             f.ty = self.field_ty(depth, true);
             if opts {
                 if self.rng.chance(1, 5) {
-                    f.rename = Some(format!("{}_{}", *self.rng.pick(&["ren", "nm", "q"]), self.rng.below(9)));
+                    f.rename = Some(if self.rng.chance(1, 10) { (*self.rng.pick(&["r#loop", "r#while"])).to_string() } else { format!("{}_{}", *self.rng.pick(&["ren", "nm", "q"]), self.rng.below(9)) });
                 }
                 let scalar = matches!(f.ty, Ty::Sc(_));
                 let transformable = matches!(f.ty, Ty::Sc(Sc::I64) | Ty::Sc(Sc::U8) | Ty::Sc(Sc::Str));
@@ -670,7 +671,7 @@ impl<'a> Gen<'a> {
                 };
                 if opts {
                     if self.rng.chance(1, 6) {
-                        v.rename = Some(format!("vr_{}", self.rng.below(9)));
+                        v.rename = Some(if self.rng.chance(1, 10) { "r#loop".to_string() } else { format!("vr_{}", self.rng.below(9)) });
                     }
                     if self.rng.chance(1, 7) {
                         v.skip = true;
